@@ -84,6 +84,16 @@ CLAIMS.update({
      note='Known finding: inline hoists the callee body before the whole statement (evaluation order of an earlier list read).'),
 })
 
+CLAIMS.update({
+ 'C15': dict(engine='Scoping', technique='explicit TLA+ path machine + declarative scoping rules checked with TLC; accept/reject and run outcomes of the real front end / interpreter judged in the same run', text=(
+     'spec/Scoping.tla holds the usage guide\'s scoping rules as a declarative environment computation and a path machine over '
+     'def/use abstractions of programs. TLC checks that the rules are sound for the machine on every steering vector (design level), '
+     'that a program the rules reject is not accepted by the real @fpy front end, and that every accepted program, run by the real '
+     'interpreter on every combination of branch outcomes and trip counts 0/1/2, never reads an unbound name or falls off its end.'),
+     note='Bounded grammar: assign, tuple pattern, if/else, one-armed if, for, while, with-as, comprehension, return; names a/b/e; '
+          'depth <= 2; at most 36 steering vectors per program.'),
+})
+
 ENGINES = [
  ('Num', 'spec/Num.tla', ['C01', 'C02', 'C05', 'C16', 'C17'], 'exact rational / special-value numbers'),
  ('Rounding', 'spec/Rounding.tla', ['C01', 'C02', 'C16', 'C17'], 'context families, core formats, rounding function, expectations'),
@@ -95,6 +105,7 @@ ENGINES = [
  ('Stochastic', 'spec/Stochastic.tla', ['C17'], 'stochastic rounding count law'),
  ('FPyMachine', 'spec/FPyMachine.tla', ['C04', 'C07', 'C08', 'C09'], 'small-step abstract machine for FPy programs (real ASTs as data)'),
  ('MCMachine', 'spec/MCMachine.tla', ['C04'], 'machine runs judged against recorded interpreter outcomes; machine invariants'),
+ ('Scoping', 'spec/Scoping.tla', ['C15'], 'scoping rules and path machine'),
  ('Equiv', 'spec/Equiv.tla', ['C07', 'C08', 'C09'], 'two-phase machine: original vs transformed program'),
 ]
 
